@@ -394,6 +394,8 @@ type Events struct {
 	NodeGen func(pkg *packages.Package, n ast.Node) []string
 	// EdgeGen adds events known on a branch edge (guards).
 	EdgeGen func(pkg *packages.Package, b *cfg.Block, i int, cond ast.Expr) []string
+	// Stop: callees that are not expanded (treated as opaque events).
+	Stop func(*types.Func) bool
 	Depth   int
 	memo    map[evKey]Facts
 	busy    map[evKey]bool
@@ -420,6 +422,9 @@ func (e *Events) OfCall(pkg *packages.Package, binds map[types.Object]*ast.FuncL
 		return out
 	}
 	if cal != nil {
+		if e.Stop != nil && e.Stop(cal) {
+			return out
+		}
 		if fi := e.W.Decls[cal]; fi != nil {
 			for k := range e.ofBody(fi.Pkg, fi.Decl.Body, must, depth-1) {
 				out = append(out, k)
